@@ -144,7 +144,9 @@ class ArraySlice(_ArrayExpr):
         for idx, axis_size in zip_longest(indices, parent_shape):
             if idx is None:
                 break
-            if isinstance(idx, slice):
+            if isinstance(idx, (slice, tuple, sp.Tuple)):
+                # a (start, stop, step) triple is an already normalized slice: this is
+                # what func(*args), xreplace(), subs() and pickle feed back in
                 new_idx = sp.Tuple(*normalize(idx, axis_size))
             else:
                 new_idx = _sympify(_normalize_index(idx, axis_size))
